@@ -128,14 +128,14 @@ Proof.
     destruct (alookup n0 (imps s)) as [i|] eqn:E.
     + destruct (is_evaluating i).
       * rewrite bind_eq. apply IH. eapply Inv_same; [| |exact Hs]; reflexivity.
-      * apply IH, Hs.
+      * destruct (is_value i); apply IH, Hs.
     + assert (Hne : n0 <> n) by (intros ->; apply (proj1 Hs); exact E).
       rewrite bind_eq. cbv beta. rewrite bind_eq.
       set (s1 := snd (emit (EvLoad n0) (snd (call W s)))).
       assert (H1 : Inv n s1) by (eapply Inv_same; [| |exact Hs]; reflexivity).
       destruct (load_result W (fst (call W s)) n0) as [| |d'].
-      * rewrite bind_eq. apply IH. eapply Inv_same; [| |exact H1]; reflexivity.
-      * rewrite bind_eq. apply IH. eapply Inv_same; [| |exact H1]; reflexivity.
+      * rewrite bind_eq, bind_eq. apply IH. apply Inv_imps_set. eapply Inv_same; [| |exact H1]; reflexivity.
+      * rewrite bind_eq, bind_eq. apply IH. apply Inv_imps_set. eapply Inv_same; [| |exact H1]; reflexivity.
       * rewrite bind_eq. cbv beta. rewrite bind_eq. apply IH. apply Inv_imps_set. apply Hev; assumption.
 Qed.
 
@@ -144,7 +144,7 @@ Proof.
   induction f as [|f IH]; intros root name d s Hne Hs.
   - rewrite eval_env_0. eapply Inv_same; [| |exact Hs]; reflexivity.
   - rewrite eval_env_S. unfold env_body. cbv zeta. rewrite bind_eq.
-    set (root' := if String.eqb root "" then name else root).
+    set (root' := if String.eqb root "" || String.eqb root "<yaml>" then name else root).
     rewrite bind_eq.
     pose proof (env_go_Inv n (eval_env W f root') (fun n0 d0 s0 => IH root' n0 d0 s0) (ed_imports d) [] []
                   _ (Inv_imps_set n name {| is_evaluating := true; is_value := None |} s Hs)) as H1.
@@ -208,7 +208,7 @@ Theorem declared_keys_present fuel root name d s :
 Proof.
   intros Hu Hoof. destruct fuel as [|f]; [discriminate Hoof|].
   rewrite eval_env_S in *. unfold env_body in *. cbv zeta in *.
-  set (root' := if String.eqb root "" then name else root) in *.
+  set (root' := if String.eqb root "" || String.eqb root "<yaml>" then name else root) in *.
   rewrite bind_eq in *. rewrite bind_eq in *.
   set (s1 := snd (imps_set name {| is_evaluating := true; is_value := None |} s)) in *.
   assert (H1 : Inv name s1).
